@@ -62,7 +62,14 @@ def run(ctx):
     ctx.touch(f)
     req_cons = {bb for h, bb, s in facts.constructions(REQ) if h.id == f.id}
     pre = [(bb, t) for bb, t in f.calls() if t.get("callee") == "std::io::Read::read" and f.in_loop(bb)]
-    ctx.require(len(pre) == 1, "C15.2: pre-read loop")
+    if len(pre) != 1:
+        # the body is fetched some other way (read_to_end / take / a single read): look for the completeness test instead
+        anyread = [bb for bb, t in f.calls() if t.get("callee") in ("std::io::Read::read", "std::io::Read::read_to_end", "std::io::Read::read_exact")]
+        exact = [bb for bb, t in f.calls() if t.get("callee") == "std::io::Read::read_exact"]
+        ctx.ob("C15.2", "%s|eof-in-body-builds-no-request" % f.id, "end of stream before the declared small body is complete yields an error, not a Request with a partial body",
+               bool(exact), f.loc(anyread[0]) if anyread else f.file,
+               None if exact else "the parse-time read of a small body is neither the checked read loop nor read_exact: nothing makes a short body an error")
+        return c15_rest(ctx, facts, nr)
     pb, pt = pre[0]
     rs = shared.result_switch(f, pb)
     ok = rs is not None and rs.get("err") is not None and not (f.reach([rs["err"]], unwind=False) & req_cons)
@@ -80,6 +87,10 @@ def run(ctx):
             zero_ok = is_err and not (r_ & req_cons) and pb not in r_
     ctx.ob("C15.2", "%s|eof-in-body-builds-no-request" % f.id, "end of stream before the declared small body is complete yields an error, not a Request with a partial body", zero_ok, f.loc(pb))
 
+    return c15_rest(ctx, facts, nr)
+
+
+def c15_rest(ctx, facts, nr):
     # ---- C15.3 answering a vanished client succeeds
     ri = find_respond_impl(facts)
     ctx.touch(ri)
